@@ -503,6 +503,7 @@ func props() []rp.Prop {
 	return []rp.Prop{
 		rp.P[seqCase]{Name: "hook-seq", Checks: ev.Pick(40000, 4000000) / ev.Shards(), Gen: genSeq("hook", 12), Check: check},
 		rp.P[seqCase]{Name: "socket-seq", Checks: ev.Pick(1600, 96000) / ev.Shards(), Gen: genSeq("socket", 6), Check: check},
+		rp.P[deadlineCase]{Name: "broadcast-deadline", Checks: ev.Pick(120, 8000) / ev.Shards(), Gen: genDeadline, Check: checkDeadline},
 	}
 }
 
